@@ -43,7 +43,7 @@ def run(ctx):
     rng = ctx.rng
     modes = drv.QUICK_MODES if ctx.quick else drv.ALL_MODES
     n = 6000 if ctx.quick else 60000
-    ctx.rule = ("case = (mode, keyed/by-address, algorithm, data size regime, chunk shape, declared size class, "
+    ctx.rule = ("case = (mode, keyed/by-address, algorithm, data size regime, chunk shape [one write per chunk, or all chunks as one write_vectored gather list], declared size class, "
                 "declared integrity class, prior key state); the commit's error variant (and SizeMismatch numbers) "
                 "are compared with the model and metadata(key)+read(key) are compared before/after a rejected commit; "
                 "distinct = distinct (mode, keyed, size regime, declared-size class, integrity class, prior state, "
@@ -112,6 +112,10 @@ def run(ctx):
         wreq = {"op": "writer", "cache": cache, "opts": opts, "chunks": [ctx.data(c) for c in gen.split(data, lens)]}
         if keyed:
             wreq["key"] = key
+        vect = bool(lens) and rng.random() < 0.2
+        if vect:
+            # the same chunks handed over as one gather list (write_vectored) instead of one write each
+            wreq["vectored"] = True
         look = [{"op": "metadata", "cache": cache, "key": key}, {"op": "read", "cache": cache, "key": key}] if keyed else []
         if shared:
             look = look + [{"op": "read", "cache": cache, "key": "holder-of-shared-content"},
@@ -124,7 +128,7 @@ def run(ctx):
         after = resps[np_ + nl + 1:]
         v = ev.variant(w)
         regime = "len0" if ln == 0 else ("<=1MiB" if ln <= MIB else ">1MiB")
-        chunkclass = "chunks0" if not lens else ("chunks1" if len(lens) == 1 else "chunksN")
+        chunkclass = ("chunks0" if not lens else ("chunks1" if len(lens) == 1 else "chunksN")) + ("-vectored" if vect else "")
         dk = (mode, keyed, regime, sclass, ikind, prior, chunkclass, shared)
         ctx.case(distinct_key=dk, sample={"mode": mode, "keyed": keyed, "algo": algo, "len": ln, "chunks": lens[:10],
                                           "declared_size": dsize, "integrity_class": ikind, "prior": prior,
